@@ -54,7 +54,7 @@ PROPS = {
               '(same kinds, same child counts, equal terminal text, holes exactly over the abstracted byte ranges); cases failing it are counted as skipped_premise and never judged. '
               'evaluations = cuts generated; each premise-holding cut is matched at cst/smart/ast/relaxed/signature and every binding range compared. '
               'Non-trivial = distinct (file, node, pattern) whose premise held and which have >= 1 hole or an ellipsis or a node with >= 3 children.'),
-        floor={'quick': 20000, 'thorough': 300000},
+        floor={'quick': 20000, 'thorough': 100000},
         level_text='Tens of thousands (quick) to ~0.6 M (thorough) cut patterns per run, each checked at five strictness levels; held on the cuts executed.',
         level_note='Trusted: the structural premise check (refsem/align.rs::shape) and children() enumeration. Holes only on named descendants; nodes containing ERROR/MISSING are excluded (statement).',
     ),
@@ -108,7 +108,7 @@ PROPS = {
               'CLI: for 8 (quick) / 23 (thorough) languages a directory of corpus files is searched with `ast-grep run -p .. -l .. --strictness .. [--selector ..] --json=stream` and '
               '`ast-grep scan -r rule.yml --json=stream`; the multiset of (file, byte range) must equal the library answer per file and the H1 event log of the binary (literal prefilter) must be empty. '
               'evaluations = matcher/source cases + CLI invocations. Non-trivial = distinct cases whose matcher has a kind set (acceleration active) and matches >= 1 node; rule sets with >= 2 rules; CLI queries with >= 1 expected match.'),
-        floor={'quick': 10000, 'thorough': 150000},
+        floor={'quick': 10000, 'thorough': 60000},
         level_text='Tens of thousands of searches and ~50 M observed prune decisions per quick run, each prune decision individually checked by evaluating the skipped work; held on the executions observed.',
         level_note='Trusted: Pre-order dfs() (checked by C19), match_node on a single node (judged by C02-C05). The prune hooks only ADD evaluation; the CLI comparison uses the hooked release binary.',
     ),
